@@ -21,7 +21,7 @@ struct FaceObj {
     bool has_just = true;          // served Silf has justification passes / levels / line-end contextuals (C19 gid clause off)
     unsigned nfeat = 0;
 };
-struct FontObj { gr_font *font = 0; int face = -1; float ppm = 0; bool alive = false; };
+struct FontObj { gr_font *font = 0; int face = -1; float ppm = 0; bool alive = false; bool pinned = false; };   // pinned: never picked by destroy_font (C08 probe font)
 struct SegObj {
     gr_segment *seg = 0; int face = -1; int font = -1; bool alive = false;
     Encoded text; SegView view;
@@ -82,6 +82,7 @@ struct World {
 
 void face_exercise(World &w, int face, const std::vector<u32> &cps);
 void seg_exercise(gr_segment *seg, const SegView &view, const gr_face *face, const gr_font *font);
+gr_font *make_font_maybe_hinted(float ppm, const gr_face *face, bool hinted);
 void quiescence_check(const std::string &prop);   // SimAlloc set must be empty
 extern std::vector<u32> g_default_report_cps;
 
